@@ -1,29 +1,27 @@
 import ZeepProofs.Lemmas.BindKw
 /-
-C12 — the keyword pass over signatures with non-repeating choices (`Choice.parse_kwargs`, direct use): the clauses
-"an argument that names nothing in the signature" and "key of the other choice branch", for every signature (any number
-of members, choices with any number of branches, anywhere in the sequence), every call and every spelling of the branches
-that are not used (not mentioned / `None` / empty collection); plus the two converses that make the refusal exact.
+C12 — the keyword pass over signatures with non-repeating choices (`Choice.parse_kwargs`, direct use) whose branches are
+element declarations or sequences of element declarations, and the rendering of such a choice from the bound fields: the
+clauses "an argument that names nothing in the signature" and "key of the other choice branch", for every signature (any
+number of members, choices with any number of branches, anywhere in the sequence), every call and every spelling of the
+members that are not used (not mentioned / `None` / empty collection); the two converses that make the refusal exact; and
+faithfulness of what is rendered for the branch the caller chose.
 -/
 namespace Zeep.BindKw
-/-- **C12, "key of the other choice branch"**: a call that gives values for two branches of one non-repeating
-choice is refused with a TypeError, however the other branches are spelt (not mentioned, `None`, empty) and
-wherever the choice stands in the signature. -/
-theorem c12_two_choice_branches_refused (items : List Item) (attrs : List String) (kw : Kw) (bs : List String)
+/-- **C12, "key of the other choice branch"**: a call that gives values for members of two different branches of one
+non-repeating choice is refused with a TypeError — whether the branches are single elements or sequences of elements, however
+the other members are spelt (not mentioned, `None`, empty) and wherever the choice stands in the signature. -/
+theorem c12_two_choice_branches_refused (items : List Item) (attrs : List String) (kw : Kw) (bs : List Branch)
     (x y : String) (vx vy : Val)
     (hnd : (allNames items ++ attrs).Nodup) (hc : Item.choice bs ∈ items)
-    (hxy : x ≠ y) (hxm : x ∈ bs) (hym : y ∈ bs)
+    (hapart : ∀ b, b ∈ bs → ¬ (x ∈ b ∧ y ∈ b)) (hxm : x ∈ bs.flatten) (hym : y ∈ bs.flatten)
     (hlx : kw.lookup x = some vx) (hvx : vx.has = true) (hly : kw.lookup y = some vy) (hvy : vy.has = true) :
     ∃ k, processKw items attrs kw = .error (.unexpectedKeyword k) := by
   have hnd' := List.nodup_append.1 hnd
-  have hk : ∀ z v, kw.lookup z = some v → z ∈ keys kw := by
-    intro z v h
-    obtain ⟨l₁, l₂, heq, _⟩ := List.lookup_eq_some_iff.1 h
-    exact List.mem_map.2 ⟨(z, v), by rw [heq]; simp, rfl⟩
-  have hin : ∀ z, z ∈ bs → z ∈ allNames items := fun z hz => List.mem_flatMap.2 ⟨_, hc, hz⟩
-  have hnota : ∀ z, z ∈ bs → z ∉ attrs := fun z hz hz' => hnd'.2.2 z (hin z hz) z hz' rfl
-  rcases seqKw_two_valued kw items [] (keys kw) bs x y vx vy hnd'.1 hc hxy hxm hym hlx hvx hly hvy
-      (hk x vx hlx) (hk y vy hly) with h | h
+  have hin : ∀ z, z ∈ bs.flatten → z ∈ allNames items := fun z hz => List.mem_flatMap.2 ⟨_, hc, hz⟩
+  have hnota : ∀ z, z ∈ bs.flatten → z ∉ attrs := fun z hz hz' => hnd'.2.2 z (hin z hz) z hz' rfl
+  rcases seqKw_two_valued kw items [] (keys kw) bs x y vx vy hnd'.1 hc hapart hxm hym hlx hvx hly hvy
+      (mem_keys_of_lookup kw x vx hlx) (mem_keys_of_lookup kw y vy hly) with h | h
   · exact processKw_error_of_left items attrs kw x ((attrKw_other kw attrs _ _ x (hnota x hxm)).2 h)
   · exact processKw_error_of_left items attrs kw y ((attrKw_other kw attrs _ _ y (hnota y hym)).2 h)
 
@@ -45,9 +43,7 @@ theorem c12_kw_accepted_keeps_values (items : List Item) (attrs : List String) (
   split at hok
   · rename_i hnil
     cases hok
-    have hk : k ∈ keys kw := by
-      obtain ⟨l₁, l₂, heq, _⟩ := List.lookup_eq_some_iff.1 hl
-      exact List.mem_map.2 ⟨(k, v), by rw [heq]; simp, rfl⟩
+    have hk : k ∈ keys kw := mem_keys_of_lookup kw k v hl
     apply attrKw_kept kw attrs _ _ k v hl
     by_cases hs : k ∈ (seqKw kw items ([], keys kw)).2
     · right
@@ -59,12 +55,11 @@ theorem c12_kw_accepted_keeps_values (items : List Item) (attrs : List String) (
       exact seqKw_kept kw items [] (keys kw) hnd (by simp [keys]) k v hl hv (.inr ⟨hk, hs⟩)
   · cases hok
 
-/-- **C12, a conforming keyword call is accepted**: every key names a member or an attribute and no choice is given
-values for two branches (whatever is passed as `None` / empty for the others) -/
+/-- **C12, a conforming keyword call is accepted**: every key names a member or an attribute and in no choice two branches are
+given values that count (whatever is passed as `None` / empty for the others) -/
 theorem c12_kw_conforming_accepted (items : List Item) (attrs : List String) (kw : Kw)
     (hkeys : (keys kw).Nodup) (hdecl : ∀ k, k ∈ keys kw → k ∈ allNames items ++ attrs)
-    (hone : ∀ bs, Item.choice bs ∈ items → ∀ x y vx vy, x ∈ bs → y ∈ bs → kw.lookup x = some vx → vx.has = true →
-      kw.lookup y = some vy → vy.has = true → x = y) :
+    (hone : ∀ bs, Item.choice bs ∈ items → OneBranch kw bs) :
     ∃ res, processKw items attrs kw = .ok res := by
   have h0 : AOk kw (keys kw) := ⟨hkeys, fun _ hx => hx⟩
   obtain ⟨h1, h2⟩ := seqKw_ok kw items [] (keys kw) h0 hone
@@ -84,13 +79,89 @@ theorem c12_kw_conforming_accepted (items : List Item) (attrs : List String) (kw
   simp only [hempty]
   exact ⟨_, rfl⟩
 
-/-! non-vacuity: the hypotheses of the theorems are met by concrete calls of a three-branch choice -/
-example : (match processKw [.elem "amount", .choice ["card", "iban", "voucher"]] ["id"]
-    [("amount", .leaf "5"), ("card", .leaf "4111"), ("iban", .leaf "NL"), ("voucher", .none)] with
-    | .error (.unexpectedKeyword k) => k == "iban" | .ok _ => false) = true := by decide
-example : (match processKw [.elem "amount", .choice ["card", "iban", "voucher"]] ["id"]
-    [("amount", .leaf "5"), ("card", .none), ("iban", .leaf "NL"), ("voucher", .none), ("id", .leaf "7")] with
-    | .ok r => r == [("amount", .leaf "5"), ("card", .none), ("iban", .leaf "NL"), ("voucher", .none), ("id", .leaf "7")]
+/-! non-vacuity: concrete calls of a choice between an element, a sequence of two elements and another element -/
+example : (match processKw [.elem "amount", .choice [["card"], ["iban", "bic"], ["voucher"]]] ["id"]
+    [("amount", .leaf "5"), ("card", .leaf "4111"), ("bic", .leaf "B"), ("voucher", .none)] with
+    | .error (.unexpectedKeyword k) => k == "bic" | .ok _ => false) = true := by decide
+example : (match processKw [.elem "amount", .choice [["card"], ["iban", "bic"], ["voucher"]]] ["id"]
+    [("amount", .leaf "5"), ("card", .none), ("iban", .leaf "NL"), ("bic", .leaf "B"), ("id", .leaf "7")] with
+    | .ok r => r == [("amount", .leaf "5"), ("card", .none), ("iban", .leaf "NL"), ("bic", .leaf "B"), ("voucher", .none), ("id", .leaf "7")]
+    | .error _ => false) = true := by decide
+
+
+/-- **C12 / C01, a choice is rendered from the branch the caller chose, completely and with nothing else**: for an accepted
+keyword call in which exactly one branch `b` of a non-repeating choice was given values that count (no empty collections among
+the arguments), `Choice.render` renders that branch (whatever its position and whatever is spelt `None` for the others); when it
+succeeds, every value the caller gave for a member of `b` is emitted and everything emitted is a value the caller gave. (A
+required member of `b` the caller left out makes it fail with a ValidationError — never a silent omission.) -/
+theorem c12_choice_rendered_faithfully (items : List Item) (attrs : List String) (kw fields : Kw)
+    (hnd : (allNames items).Nodup) (hok : processKw items attrs kw = .ok fields)
+    (pre : List RBranch) (b : RBranch) (post : List RBranch) (opt : Bool)
+    (hval : ValuedIn kw b.names) (hothers : ∀ b', b' ∈ pre ++ post → ¬ ValuedIn kw (RBranch.names b'))
+    (hnoempty : ∀ k, kw.lookup k ≠ some .empty) :
+    renderChoice fields (pre ++ b :: post) opt = renderBranch fields b ∧
+    ∀ out, renderBranch fields b = .ok out →
+      (∀ k v, kw.lookup k = some v → v.has = true → k ∈ b.names → (k, v) ∈ out) ∧
+      (∀ k v, (k, v) ∈ out → kw.lookup k = some v ∧ k ∈ b.names) := by
+  obtain ⟨huniq, hprov⟩ := processKw_fields items attrs kw fields hok
+  have hfield : ∀ k v, kw.lookup k = some v → v.has = true → fields.lookup k = some v := fun k v hl hv =>
+    lookup_of_mem_uniq fields huniq k v (c12_kw_accepted_keeps_values items attrs kw fields hnd hok k v hl hv)
+  -- a field that is not None is the caller's, and counts
+  have hback : ∀ k v, fields.lookup k = some v → v ≠ .none → kw.lookup k = some v ∧ v.has = true := by
+    intro k v hl hv
+    rcases hprov k v (mem_of_lookup fields k v hl) with h | h
+    · exact absurd h hv
+    · refine ⟨h, ?_⟩
+      cases v with
+      | none => exact absurd rfl hv
+      | empty => exact absurd h (hnoempty k)
+      | leaf t => rfl
+  have hscore0 : ∀ b', b' ∈ pre ++ post → score fields b' = 0 := by
+    intro b' hb'
+    unfold score
+    rw [List.length_eq_zero_iff, List.filter_eq_nil_iff]
+    intro m hm hg
+    unfold given at hg
+    cases hl : fields.lookup m.name with
+    | none => rw [hl] at hg; cases hg
+    | some v =>
+      rw [hl] at hg
+      have hv : v ≠ .none := by simpa using hg
+      obtain ⟨h1, h2⟩ := hback m.name v hl hv
+      exact hothers b' hb' ⟨m.name, v, List.mem_map.2 ⟨m, hm, rfl⟩, h1, h2⟩
+  have hscoreb : score fields b > 0 := by
+    obtain ⟨x, v, hx, hl, hv⟩ := hval
+    obtain ⟨m, hm, rfl⟩ := List.mem_map.1 hx
+    unfold score
+    apply List.length_pos_of_mem (a := m)
+    apply List.mem_filter.2
+    refine ⟨hm, ?_⟩
+    unfold given
+    rw [hfield m.name v hl hv]
+    cases v with
+    | none => cases hv
+    | empty => cases hv
+    | leaf t => rfl
+  constructor
+  · unfold renderChoice
+    rw [best_single fields pre b post (fun b' hb' => hscore0 b' (List.mem_append_left _ hb'))
+      (fun b' hb' => hscore0 b' (List.mem_append_right _ hb')) hscoreb]
+  · intro out hout
+    constructor
+    · intro k v hl hv hk
+      obtain ⟨m, hm, rfl⟩ := List.mem_map.1 hk
+      exact renderBranch_emits fields b out hout m hm v (hfield m.name v hl hv) (by cases v <;> simp_all [Val.has])
+    · intro k v hm
+      obtain ⟨h1, h2, h3⟩ := renderBranch_sound fields b out hout k v hm
+      exact ⟨(hback k v h1 h2).1, h3⟩
+
+/-! non-vacuity: the second of three branches (a sequence with an optional member) is chosen, the others spelt `None` / not mentioned -/
+example : (match processKw [.elem "amount", .choice [["card"], ["iban", "bic"], ["voucher"]]] ["id"]
+      [("amount", .leaf "5"), ("card", .none), ("iban", .leaf "NL")] with
+    | .ok fields =>
+      (match renderChoice fields [[⟨"card", false⟩], [⟨"iban", false⟩, ⟨"bic", true⟩], [⟨"voucher", false⟩]] false with
+        | .ok out => out == [("iban", .leaf "NL")]
+        | .error _ => false)
     | .error _ => false) = true := by decide
 
 end Zeep.BindKw
